@@ -1,8 +1,13 @@
+import Pl.OneShot
 import Pl.Check
 import Pl.Run
 import Pl.Run2
 import Pl.Hib2
 namespace PlDrv
+
+/-- the shared `merges` set of the one-shot merge processor (reset by `new`) -/
+initialize oneShotSeen : IO.Ref (List Nat) ← IO.mkRef []
+
 open Pl
 
 def parseKind : String → Option Kind
@@ -30,6 +35,11 @@ partial def loop (h : IO.FS.Stream) : IO Unit := do
   if line.isEmpty then return ()
   let ws := (line.trim.splitOn " ").filter (· ≠ "")
   match ws with
+  | ["new"] => oneShotSeen.set []; IO.println "ok"
+  | ["call", c, np] =>
+    let (r, seen') := OneShot.should (← oneShotSeen.get) c.toNat! np.toNat!
+    oneShotSeen.set seen'
+    IO.println s!"{r}"
   | "gc" :: acts =>
     let plan := acts.filterMap parseAction
     IO.println (fmt (collectGarbage plan))
